@@ -13,6 +13,8 @@ import (
 	"errors"
 	"fmt"
 	"io"
+	"net/http"
+	"net/http/httptest"
 	"strings"
 	"testing"
 	"time"
@@ -435,6 +437,94 @@ func c04RawServer(version string) vs.Verdict {
 	return f.verdict(fmt.Sprintf("ids=%s dup=%d target=%d %s", ids[1], dup, target, strings.Join(evs, ",")))
 }
 
+// c04FailingWriter is an HTTP response writer whose connection went away without the server
+// noticing yet: once broken, every write fails.
+type c04FailingWriter struct {
+	*httptest.ResponseRecorder
+	broken *bool
+}
+
+func (w *c04FailingWriter) Write(p []byte) (int, error) {
+	if *w.broken {
+		return 0, errors.New("verif: stream reset by peer")
+	}
+	return w.ResponseRecorder.Write(p)
+}
+
+// c04LateResponseWrite: two tool calls are in flight on one streamable session; the client
+// abandons call A (its HTTP stream breaks: writes to it fail) and A's handler then returns.  The
+// late response to A cannot be delivered; that must stay without effect: B's handler is not
+// cancelled, B is answered, and the session serves further calls.
+func c04LateResponseWrite() vs.Verdict {
+	f := &e1Fail{prefix: "c04 late-response"}
+	ctl := vs.NewController()
+	gates := map[string]*vs.Gate{"A": ctl.Gate("A"), "B": ctl.Gate("B")}
+	vs.Quiet(true)
+	s := NewServer(&Implementation{Name: "srv", Version: "1"}, &ServerOptions{Logger: quietLogger})
+	AddTool(s, &Tool{Name: "t"}, func(ctx context.Context, r *CallToolRequest, in c10Args) (*CallToolResult, any, error) {
+		vs.Event("start %s", in.Tag)
+		if !gates[in.Tag].WaitOr(ctx.Done()) {
+			vs.Event("cancelled %s", in.Tag)
+			return nil, nil, ctx.Err()
+		}
+		vs.Event("finish %s", in.Tag)
+		return &CallToolResult{Content: []Content{&TextContent{Text: in.Tag}}}, nil, nil
+	})
+	h := NewStreamableHTTPHandler(func(*http.Request) *Server { return s }, &StreamableHTTPOptions{Logger: quietLogger})
+	mk := func(sid, body string) *http.Request {
+		r := httptest.NewRequest("POST", "http://example.test/mcp", strings.NewReader(body))
+		r.Header.Set("Content-Type", "application/json")
+		r.Header.Set("Accept", "application/json, text/event-stream")
+		if sid != "" {
+			r.Header.Set("Mcp-Session-Id", sid)
+			r.Header.Set("Mcp-Protocol-Version", "2025-06-18")
+		}
+		return r
+	}
+	w0 := httptest.NewRecorder()
+	h.ServeHTTP(w0, mk("", `{"jsonrpc":"2.0","id":"i","method":"initialize","params":{"protocolVersion":"2025-06-18","capabilities":{},"clientInfo":{"name":"c","version":"1"}}}`))
+	sid := w0.Header().Get("Mcp-Session-Id")
+	h.ServeHTTP(httptest.NewRecorder(), mk(sid, `{"jsonrpc":"2.0","method":"notifications/initialized","params":{}}`))
+	broken := false
+	recA := &c04FailingWriter{ResponseRecorder: httptest.NewRecorder(), broken: &broken}
+	recB := httptest.NewRecorder()
+	done := make(chan string, 2)
+	vs.Go(func() {
+		h.ServeHTTP(recA, mk(sid, `{"jsonrpc":"2.0","id":1,"method":"tools/call","params":{"name":"t","arguments":{"tag":"A"}}}`))
+		done <- "A"
+	})
+	vs.Go(func() {
+		h.ServeHTTP(recB, mk(sid, `{"jsonrpc":"2.0","id":2,"method":"tools/call","params":{"name":"t","arguments":{"tag":"B"}}}`))
+		done <- "B"
+	})
+	vs.WaitIdle() // both handlers are parked
+	vs.Quiet(false)
+	broken = true
+	// the controller releases A first (its response write fails), then B
+	<-done
+	<-done
+	ctl.Stop()
+	vs.Quiet(true)
+	wp := httptest.NewRecorder()
+	h.ServeHTTP(wp, mk(sid, `{"jsonrpc":"2.0","id":3,"method":"ping"}`))
+	for ss := range s.Sessions() {
+		ss.Close()
+	}
+	vs.WaitIdle()
+	vs.Quiet(false)
+	evs := vs.Events()
+	if evIndex(evs, "cancelled B") >= 0 {
+		f.failf("other-handler-cancelled", "call A's HTTP stream broke and its late response could not be written; the handler of the other in-flight call B was cancelled: %s", evJoin(evs))
+	}
+	if !strings.Contains(recB.Body.String(), `"text":"B"`) {
+		f.failf("other-call-affected", "call B did not receive its response after A's stream broke: status %d body %q (%s)", recB.Code, recB.Body.String(), evJoin(evs))
+	}
+	if wp.Code != 200 || !strings.Contains(wp.Body.String(), `"result"`) {
+		f.failf("session-unusable", "a ping after the failed late write was answered %d %q", wp.Code, wp.Body.String())
+	}
+	return f.verdict(strings.Join(evs, ","))
+}
+
 func TestVerifC04(t *testing.T) {
 	env := verifx.LoadEnv("C04")
 	scs := []*verifx.Scenario{
@@ -442,6 +532,7 @@ func TestVerifC04(t *testing.T) {
 		vs.E1(t, "scripted-peer", env.Pick(2, 3), vs.Options{}, func() vs.Verdict { return c04Scripted() }),
 		vs.E1(t, "streamable/abandoned-nested-call/no-standalone-stream", env.Pick(1, 2), vs.Options{}, func() vs.Verdict { return c10UpcallCancel("c04 nested-cancel", false, false) }),
 		vs.E1(t, "streamable/abandoned-nested-call", env.Pick(1, 2), vs.Options{}, func() vs.Verdict { return c10UpcallCancel("c04 nested-cancel", false, true) }),
+		vs.E1(t, "streamable/late-response-on-broken-stream", env.Pick(1, 2), vs.Options{}, func() vs.Verdict { return c04LateResponseWrite() }),
 		vs.E1(t, "raw-server/cancel-by-id/2025-06-18", env.Pick(1, 2), vs.Options{}, func() vs.Verdict { return c04RawServer("2025-06-18") }),
 	}
 	env.Run(scs)
